@@ -31,10 +31,17 @@ def body(kind, rng, n=None):
     return mesh, f
 
 
-def shifted(A, M, sigma=0, **kw):
-    """eigsh with a negative shift (the stiffness of an unconstrained body is singular at sigma = 0)"""
-    from scipy.sparse.linalg import eigsh
-    return eigsh(A, M=M, sigma=-1.0, **kw)
+def shifted(A, M, sigma=0, k=6, **kw):
+    """dense generalised symmetric eigen-solver handed to FreeVibration.evaluate(solver=...): the stiffness of an unconstrained body is
+    singular at the default shift, and ARPACK (random start vector) may miss copies of the six-fold zero eigenvalue or of a
+    repeated bending frequency -- the dense solver is deterministic and returns all multiplicities"""
+    from scipy.linalg import eigh
+    # M may be singular (one-point rules), K is singular (rigid modes), K + M is positive definite:
+    # M v = theta (K + M) v  with  lambda = 1 / theta - 1 ; the largest theta are the smallest lambda
+    Kd, Md = A.toarray(), M.toarray()
+    th, v = eigh(Md, Kd + Md)
+    th, v = th[::-1][:k], v[:, ::-1][:, :k]
+    return 1.0 / th - 1.0, v
 
 
 def main():
